@@ -245,8 +245,10 @@ func runC13(cw *caseWriter, tier string, seed uint64) {
 	if tier == "quick" {
 		runScenarios(cw, 5, seed*100000, 10, 4)
 		runScenarios(cw, 6, seed*100000, 3, 3)
+		runScenarios(cw, 17, seed*100000, 4, 4) // the lease rests on a voter promoted during the leadership
 	} else {
 		runScenarios(cw, 5, seed*100000, 120, 4)
 		runScenarios(cw, 6, seed*100000, 12, 3)
+		runScenarios(cw, 17, seed*100000, 60, 4)
 	}
 }
